@@ -1400,7 +1400,12 @@ class Canonicaliser:
                                     mapping[p_] = dflt[p_]
                                 else:
                                     ok = False
-                        if not ok or not all(_simple(v) or (isinstance(v, ast.Tuple) and all(_simple(x) for x in v.elts))
+                        def _pure_callable(v):
+                            # a function object built on the spot from plain parts: methodcaller("append", value), a lambda
+                            return isinstance(v, ast.Lambda) or (
+                                isinstance(v, ast.Call) and norm_name(v.func).split(".")[-1] in ("methodcaller", "attrgetter", "itemgetter", "partial")
+                                and all(_simple(a_) for a_ in v.args) and all(k_.arg and _simple(k_.value) for k_ in v.keywords))
+                        if not ok or not all(_simple(v) or _pure_callable(v) or (isinstance(v, ast.Tuple) and all(_simple(x) for x in v.elts))
                                              for v in mapping.values()):
                             out.append(st)
                             continue
